@@ -186,6 +186,17 @@ func c07get(idx int) c07case {
 		reqs = append(reqs, resp.Cmd("ECHO", "sync"))
 		return c07case{Kind: "sweep", Handler: handler, Reqs: reqs, Ending: sconn.EOF}
 	}
+	if idx < 2*nSweep+4 {
+		// one request that pushes 40 000 elements onto a list (440 KB on the wire): the work for a request, done
+		// inside the command lock, grows with its size and not with its square (the child watchdog calls 3 s of
+		// CPU without a transport or handler event a spin)
+		args := make([]string, 0, 40002)
+		args = append(args, []string{"LPUSH", "RPUSH"}[(idx/2)%2], "wide-list")
+		for k := 0; k < 40000; k++ {
+			args = append(args, fmt.Sprint("e", k))
+		}
+		return c07case{Kind: "wide-request", Handler: handler, Reqs: []resp.Value{resp.Cmd(args...), resp.Cmd("LLEN", "wide-list"), resp.Cmd("LPOP", "wide-list"), resp.Cmd("ECHO", "sync")}, Ending: sconn.EOF}
+	}
 	ending := rng.Pick(r, []sconn.Ending{sconn.EOF, sconn.EOF, sconn.Reset})
 	switch r.Intn(4) {
 	case 0:
